@@ -39,6 +39,7 @@ type GStep struct {
 	K   string   `json:"k"`
 	ID  string   `json:"id"`
 	Gap int      `json:"gap"` // blocks since the previous step (every step is a block of its own: >= 1)
+	X   X        `json:"x,omitempty"` // shapes of arguments the Spec ignores (see shapes_test.go)
 }
 
 // GScenario is a sequence of steps on a fresh deployment.
@@ -49,6 +50,8 @@ type GScenario struct {
 	Idx    int     `json:"idx"` // index of the Alphabet contract
 	Src    string  `json:"src"`
 	Steps  []GStep `json:"steps"`
+	// X: scenario-level shapes: bytes behind the decision ids, the Alphabet contract's name/total arguments
+	X X `json:"x,omitempty"`
 }
 
 const limbBase = 1_000_000
@@ -159,8 +162,8 @@ func newGWorld(t *testing.T, sc *GScenario, seed int64) *gworld {
 		}
 	}
 	w.stored = stored
-	for _, id := range []string{"i1", "i2", "j1", "a1"} {
-		w.idN.reg(id, []byte("id-"+id))
+	for i, id := range []string{"i1", "i2", "j1", "a1"} {
+		w.idN.reg(id, idBytes(sc.X["ids"], i, "id-"+id))
 	}
 	for _, cn := range gasCands {
 		h := sha256.Sum256(append(append([]byte{}, chain.Pub(w.sg[cn])...), []byte("delete")...))
@@ -174,7 +177,25 @@ func newGWorld(t *testing.T, sc *GScenario, seed int64) *gworld {
 	proxy := c.Compile("proxy")
 	c.Deploy(proxy, nil)
 	alph := c.Compile("alphabet")
-	c.Deploy(alph, []any{false, util.Uint160{9}, proxy.Hash, "Az", int64(sc.Idx), int64(sc.NC)})
+	total := int64(sc.NC) // stored under "threshold", never read by the contract
+	switch sc.X["total"] {
+	case "0":
+		total = 0
+	case "1":
+		total = 1
+	case "100":
+		total = 100
+	case "-1":
+		total = -1
+	}
+	name := "Az"
+	switch sc.X["name"] {
+	case "empty":
+		name = ""
+	case "long":
+		name = strings.Repeat("Zhivete", 9)
+	}
+	c.Deploy(alph, []any{false, util.Uint160{9}, proxy.Hash, name, int64(sc.Idx), total})
 	tok := c.CompileDir(filepath.Join(harnessRoot(), "contracts", "mainchaintoken"))
 	c.Deploy(tok, nil)
 	w.token = tok.Hash
@@ -182,6 +203,7 @@ func newGWorld(t *testing.T, sc *GScenario, seed int64) *gworld {
 	reg("proc", proc.Hash)
 	reg("proxy", proxy.Hash)
 	reg("alph", alph.Hash)
+	w.acctN.reg("q20", bigint.ToBytes(dataArg("int20", nil).(*big.Int)))
 	w.roles = c.E.NativeHash(t, nativenames.Designation)
 	return w
 }
@@ -233,28 +255,31 @@ func (w *gworld) exec(st GStep) chain.Rec {
 	var r *chain.Result
 	switch st.Act {
 	case "deposit":
-		var data any
-		switch st.K {
-		case "none":
-			data = nil
-		case "empty":
-			data = []byte{}
-		case "h20":
-			data = w.acct(st.V).BytesBE()
-		case "b19":
-			data = make([]byte, 19)
-		case "b21":
-			data = make([]byte, 21)
-		case "magic":
-			data = []byte{0x57, 0x0b}
-		default:
-			w.t.Fatalf("unknown data kind %q", st.K)
+		shapes, ok := depositShapes[st.K]
+		require.True(w.t, ok, "unknown data kind %q", st.K)
+		sh := st.X["data"]
+		if !slices.Contains(shapes, sh) {
+			sh = shapes[0]
 		}
-		r = c.Run(g, sg, "transfer", w.acct(st.U), w.acct("neofs"), amt, data)
+		r = c.Run(g, sg, "transfer", w.acct(st.U), w.acct("neofs"), amt, dataArg(sh, w.h[st.V].BytesBE()))
 	case "withdraw":
 		r = c.Run(w.acct("neofs"), sg, "withdraw", w.acct(st.U), st.W)
 	case "cheque":
-		r = c.Run(w.acct("neofs"), sg, "cheque", w.idN.val(w.t, st.ID), w.acct(st.V), amt, []byte("lock"))
+		r = c.Run(w.acct("neofs"), sg, "cheque", w.idN.val(w.t, st.ID), w.acct(st.V), amt, lockArg(st.X["lock"]))
+	case "bind":
+		m := "bind"
+		if st.K == "unbind" {
+			m = "unbind"
+		}
+		var pubs [][]byte
+		for _, k := range gasKeys {
+			pubs = append(pubs, chain.Pub(w.sg[k]))
+		}
+		ks := keyList(st.X["keys"], pubs)
+		if st.W != 0 { // a key of a wrong length somewhere in the list
+			ks = append(ks, make([]byte, 32))
+		}
+		r = c.Run(w.acct("neofs"), sg, m, w.acct(st.U), ks)
 	case "candAdd":
 		r = c.Run(w.acct("neofs"), sg, "innerRingCandidateAdd", w.keyN.val(w.t, st.V))
 	case "candRemove":
@@ -272,19 +297,37 @@ func (w *gworld) exec(st GStep) chain.Rec {
 		for i := 0; i < int(st.W) && i < len(w.irPubs); i++ {
 			ks = append(ks, w.irPubs[i])
 		}
+		switch st.X["order"] { // the native contract sorts the list
+		case "desc":
+			slices.Reverse(ks)
+		case "rot":
+			if len(ks) > 1 {
+				ks = append(ks[1:], ks[0])
+			}
+		}
 		r = c.Run(w.roles, sg, "designateAsRole", int64(noderoles.NeoFSAlphabet), ks)
 	case "emit":
 		r = c.Run(w.acct("alph"), sg, "emit")
 	case "pay":
+		sh := st.X["data"]
+		if sh == "" {
+			sh = "null"
+		}
+		if sh == "magic" && st.V == "neofs" {
+			// NeoFS's callback returns silently for the marker from ANY caller (observation in the report);
+			// the statement does not speak about it, so it is not offered here
+			sh = "b2"
+		}
+		data := dataArg(sh, w.acct(st.U).BytesBE())
 		switch st.K {
 		case "GAS":
-			r = c.Run(g, sg, "transfer", w.acct(st.U), w.acct(st.V), amt, nil)
+			r = c.Run(g, sg, "transfer", w.acct(st.U), w.acct(st.V), amt, data)
 		case "NEO":
-			r = c.Run(neoHash(c), sg, "transfer", w.acct(st.U), w.acct(st.V), st.W, nil)
+			r = c.Run(neoHash(c), sg, "transfer", w.acct(st.U), w.acct(st.V), st.W, data)
 		case "FOREIGN":
-			r = c.Run(w.token, sg, "pay", w.acct(st.V), w.acct(st.U), amt, nil)
+			r = c.Run(w.token, sg, "pay", w.acct(st.V), w.acct(st.U), amt, data)
 		case "DIRECT":
-			r = c.Run(w.acct(st.V), sg, "onNEP17Payment", w.acct(st.U), amt, nil)
+			r = c.Run(w.acct(st.V), sg, "onNEP17Payment", w.acct(st.U), amt, data)
 		default:
 			w.t.Fatalf("unknown token %q", st.K)
 		}
@@ -298,7 +341,7 @@ func (w *gworld) exec(st GStep) chain.Rec {
 	}
 	ntf, mint := w.events(r.Events)
 	return chain.Rec{"act": st.Act, "S": names, "u": orNil(st.U), "v": orNil(st.V), "amt": st.Amt, "w": st.W, "k": orNil(st.K),
-		"id": orNil(st.ID), "mint": mint, "res": r.Res(), "ret": ret, "ntf": ntf, "fault": r.Fault}
+		"id": orNil(st.ID), "mint": mint, "res": r.Res(), "ret": ret, "ntf": ntf, "fault": r.Fault, "x": st.X}
 }
 
 // events: NeoFS notifications in model values, and the GAS minted to tracked accounts (Transfer from null).
@@ -333,6 +376,8 @@ func (w *gworld) events(evs []state.NotificationEvent) ([]any, map[string]any) {
 		case "Cheque":
 			out = append(out, mk("Cheque", w.acctN.name(chain.ItemBytes(it[1]), &w.bad), "nil", w.toL(chain.ItemBig(it[2]), "ntf.cheque"),
 				w.idN.name(chain.ItemBytes(it[0]), &w.bad)))
+		case "Bind", "Unbind":
+			out = append(out, mk(ev.Name, w.acctN.name(chain.ItemBytes(it[0]), &w.bad), "nil", []int64{0, 0, 0}, "nil"))
 		case "AlphabetUpdate":
 			out = append(out, mk("AlphabetUpdate", "nil", "nil", []int64{0, 0, 0}, w.idN.name(chain.ItemBytes(it[0]), &w.bad)))
 		case "SetConfig":
@@ -442,6 +487,36 @@ func (w *gworld) observe() map[string]any {
 }
 
 func runGasScenario(t *testing.T, rec *chain.Recorder, idx int, sc *GScenario, seed int64) {
+	if sc.X == nil {
+		r := shapeRand(seed, idx, -1)
+		sc.X = X{"ids": pickS(r, "plain", "plain", "prefix", "long", "hashlike"), "total": pickS(r, "nc", "nc", "0", "1", "100", "-1"),
+			"name": pickS(r, "Az", "Az", "empty", "long")}
+	}
+	for i := range sc.Steps {
+		if sc.Steps[i].X != nil {
+			continue
+		}
+		r := shapeRand(seed, idx, i)
+		st := &sc.Steps[i]
+		st.X = X{}
+		switch st.Act {
+		case "deposit":
+			if shapes, ok := depositShapes[st.K]; ok {
+				st.X["data"] = shapes[r.Intn(len(shapes))]
+				if st.X["data"] == "int20" {
+					st.V = "q20" // the receiver named by the integer's 20 bytes
+				}
+			}
+		case "pay":
+			st.X["data"] = anyData[r.Intn(len(anyData))]
+		case "cheque":
+			st.X["lock"] = lockShapes[r.Intn(len(lockShapes))]
+		case "designate":
+			st.X["order"] = pickS(r, "asc", "desc", "rot")
+		case "bind":
+			st.X["keys"] = pickS(r, "empty", "one", "dup", "rev", "many")
+		}
+	}
 	w := newGWorld(t, sc, seed+int64(idx))
 	obs := w.observe()
 	zero := map[string]any{}
@@ -451,7 +526,7 @@ func runGasScenario(t *testing.T, rec *chain.Recorder, idx int, sc *GScenario, s
 	w.lastH = int64(w.c.Height()) - 1
 	rec.Emit(chain.Rec{"t": idx, "act": "reset", "S": []string{}, "u": "nil", "v": "nil", "amt": []int64{0, 0, 0}, "w": 0, "k": "nil",
 		"id": "nil", "gap": 0, "h": w.lastH, "mint": zero, "res": "HALT", "ret": "null", "ntf": []any{}, "obs": obs, "bad": []string{},
-		"notary": sc.Notary, "skeys": gasKeys[:sc.NS], "nc": sc.NC, "idx": sc.Idx, "ns": sc.NS, "src": sc.Src})
+		"notary": sc.Notary, "skeys": gasKeys[:sc.NS], "nc": sc.NC, "idx": sc.Idx, "ns": sc.NS, "src": sc.Src, "x": sc.X})
 	// Without Notary the arguments of a cheque are a function of its decision id within a scenario (the
 	// first use of the id fixes receiver and amount): the statement speaks of "the cheque" an id stands for.
 	type chq struct {
@@ -604,6 +679,13 @@ func randGasScenario(r *rand.Rand) *GScenario {
 				}
 			}
 			sc.Steps = append(sc.Steps, GStep{Act: act, S: sigOr(nat), V: c})
+		case k < 13 && r.Intn(3) == 0:
+			u := pick(gasUsers)
+			var bad int64
+			if r.Intn(5) == 0 {
+				bad = 1
+			}
+			sc.Steps = append(sc.Steps, GStep{Act: "bind", S: sigOr(u), U: u, K: pick([]string{"bind", "unbind"}), W: bad})
 		case k < 13:
 			sc.Steps = append(sc.Steps, GStep{Act: "setFee", S: sigOr(alphaSig()), K: pick([]string{"wfee", "cfee"}),
 				Amt: [][]int64{gasAmt(0, 0), gasAmt(0, 1), gasAmt(0, 100_0000), gasAmt(1, 0), gasAmt(5, 5), gasAmt(200, 0)}[r.Intn(6)], ID: "j1"})
